@@ -78,11 +78,10 @@ Exact(r) == \A i \in DOMAIN r.trips : TripExact(r, r.trips[i])
 
 Verdict == l > 0 => Holds(Rec[l])
 \* always TRUE: names the lines that pass only because of the open finding
-ReportKnown == (l > 0 /\ Holds(Rec[l]) /\ ~Exact(Rec[l])) => PrintT(<<"KNOWN", Rec[l].case, l>>)
-\* always TRUE: names every failing line with the widths of its first failing trip (TLC runs with -continue)
+ReportKnown == (l > 0 /\ Holds(Rec[l]) /\ ~Exact(Rec[l])) => PrintT(<<"KNOWN", l>>)
+\* always TRUE: names every failing line and its first failing trip (TLC runs with -continue)
 FirstBad(r) == CHOOSE i \in DOMAIN r.trips : ~TripHolds(r, r.trips[i]) /\ \A j \in 1..(i - 1) : TripHolds(r, r.trips[j])
-ReportBad == (l > 0 /\ ~Holds(Rec[l])) =>
-               PrintT(<<"BAD", Rec[l].case, l, Rec[l].trips[FirstBad(Rec[l])].widths, Rec[l].trips[FirstBad(Rec[l])].err>>)
+ReportBad == (l > 0 /\ ~Holds(Rec[l])) => PrintT(<<"BAD", l, FirstBad(Rec[l])>>)
 
 \* every line was judged
 AllJudged == TLCGet("stats").distinct = N + 1
